@@ -6,6 +6,12 @@
 //!
 //! Out of the property's domain (skipped and counted): the minimum value of signed types, lcm whose
 //! mathematical value does not fit the type, lcm(0,0) (the code divides by gcd = 0 there), egcd(0,0,c).
+//! Every such case is skipped BEFORE the call.
+//!
+//! The whole enumeration runs twice: in the release profile, and (as a child process, `run_dbg_child`) in the
+//! `dbg` profile with debug assertions and integer overflow checks, where an overflow or debug-assertion
+//! panic on an in-domain input is a violation (signature prefix `dbg:`).  The engine's own arithmetic is
+//! therefore written to be overflow-free on every enumerated operand (wrapping / saturating where needed).
 
 use rayon::prelude::*;
 use rlib_num_traits::Integer;
@@ -481,7 +487,8 @@ impl Stats {
     }
     /// Keep, per family, the failing case with the smallest key (max magnitude, sum of magnitudes, type, index).
     fn fail(&mut self, fam: &'static str, ty: &str, args: &[Z], seq: u64, tyidx: u64, summary: String) {
-        let key: Key = (args.iter().map(|z| z.1).max().unwrap_or(0), args.iter().map(|z| z.1).sum(), tyidx, seq);
+        // (saturating: operands near u128::MAX are enumerated, and the engine itself is also built with overflow checks)
+        let key: Key = (args.iter().map(|z| z.1).max().unwrap_or(0), args.iter().fold(0u128, |a, z| a.saturating_add(z.1)), tyidx, seq);
         if let Some(cur) = self.fails.get(fam) {
             if cur.key <= key {
                 return;
@@ -753,6 +760,8 @@ fn egcd_boundary_mags() -> Vec<u128> {
 }
 
 /// All triples of boundary values (both signs) up to 2^20, except a = b = 0 and the triples inside the cube.
+/// On i32 the domain bound 4*|c|*max(|a|,|b|) <= MAX cuts through this set, so the in-domain triples closest
+/// to the bound are executed (what the overflow-checking build needs); the others are skipped and counted.
 fn egcd_boundary<T: Ty>(cube: u128) -> Stats {
     let vals = signed_vals::<T>(&egcd_boundary_mags());
     let k = vals.len();
@@ -1097,13 +1106,13 @@ fn main() {
     // egcd
     each!(egcd_cube(&tabs, cube); i64, i32, i128);
     timing("egcd cube", &run);
-    each!(egcd_boundary(cube); i64);
+    each!(egcd_boundary(cube); i64, i32);
     timing("egcd boundary triples", &run);
 
     // crt
     tot = tot.merge(crt_small(&tabs, mmax));
     timing("crt small moduli", &run);
-    each!(crt_boundary(mmax); i64, i128);
+    each!(crt_boundary(mmax); i64, i128, i32);
     timing("crt boundary moduli", &run);
 
     // ---- evidence
@@ -1126,14 +1135,14 @@ fn main() {
             "gcd_lcm_boundary_magnitudes": boundary_mags().len(),
             "gcd_lcm_all_16_bit_pairs": thorough,
             "egcd_cube": format!("|a|,|b|,|c| <= {cube} minus a=b=0 on i64,i32,i128"),
-            "egcd_boundary_magnitudes_i64": egcd_boundary_mags().len(),
+            "egcd_boundary_magnitudes_i64_i32": egcd_boundary_mags().len(),
             "crt_small": format!("1 <= m1,m2 <= {mmax}, all reduced residues, on i64,i32,i128"),
-            "crt_boundary_moduli_i64_i128": crt_boundary_moduli().len(),
+            "crt_boundary_moduli_i64_i128_i32": crt_boundary_moduli().len(),
         }),
     );
     run.cov(
         "rule",
-        "every (type, function, operands) tuple of the stated boxes and boundary sets is executed once on the real code, operands ordered 0,1,-1,2,-2,…; expected gcd/lcm come from tables built by the definitions (downward search for the largest common divisor, upward search for the smallest common multiple), CRT from the table x -> (x mod m1, x mod m2) over [0,lcm), boundary cases from a binary gcd plus direct verification (a*x+b*y==c exactly; 0<=x<lcm, x≡a1, x≡a2). A case is non-trivial when both principal operands ((a,b) resp. (m1,m2)) are non-zero and neither divides the other (the Euclidean recursion runs at least two remainder steps); distinct_nontrivial counts such executed tuples, which are distinct by construction (boundary enumerations omit what the boxes cover)",
+        "every (type, function, operands) tuple of the stated boxes and boundary sets is executed once on the real code in each of two builds (release profile; and the dbg profile with debug assertions and integer overflow checks, where a panic on an in-domain tuple is a violation — out-of-domain tuples are skipped before the call in both), operands ordered 0,1,-1,2,-2,…; expected gcd/lcm come from tables built by the definitions (downward search for the largest common divisor, upward search for the smallest common multiple), CRT from the table x -> (x mod m1, x mod m2) over [0,lcm), boundary cases from a binary gcd plus direct verification (a*x+b*y==c exactly; 0<=x<lcm, x≡a1, x≡a2). A case is non-trivial when both principal operands ((a,b) resp. (m1,m2)) are non-zero and neither divides the other (the Euclidean recursion runs at least two remainder steps); distinct_nontrivial counts such executed tuples, which are distinct by construction (boundary enumerations omit what the boxes cover)",
     );
     let lcm00 = match catch(|| rlib_gcd::lcm(0i64, 0i64)) {
         Ok(v) => format!("returns {v}"),
@@ -1142,7 +1151,7 @@ fn main() {
     run.cov("lcm_zero_zero_observed", format!("lcm(0,0) is treated as out of domain (skipped, counted); the real code {lcm00}"));
     run.assume("lcm(0,0) and egcd(0,0,c) are outside the property's domain; signed minimum values are excluded as the property says");
     run.assume("'intermediate values fit the type' is taken as 4*|c|*max(|a|,|b|) <= T::MAX for egcd and 4*max(m1,m2)^2 <= T::MAX for crt (true for every enumerated case unless counted under skipped_intermediates_may_not_fit_type), and 'the lcm itself fits' for lcm");
-    run.assume("the harness is built with overflow checks off (release profile of the workspace), like a release build of rlib");
+    run.assume("two builds are judged: the release profile of the workspace (overflow checks and debug assertions off, like a release build of rlib) and, as a second pass over the same enumeration, the dbg profile (same optimisation, debug assertions and integer overflow checks on, like `cargo test`): there an overflow or debug-assertion panic on an in-domain input is a violation (signature prefix dbg:)");
 
     // ---- samples (VERIF_SEED only rotates which cases are written out)
     {
@@ -1195,6 +1204,11 @@ fn main() {
 
     for (_, f) in std::mem::take(&mut tot.fails) {
         run.violation(f.v);
+    }
+    if std::env::var("VCORE_CHILD").is_err() {
+        // the same enumeration in a build with debug assertions and integer overflow checks: every skipped
+        // case is skipped BEFORE the call there too, so a panic of the real code is a panic on an in-domain input
+        run.run_dbg_child();
     }
     run.finish(&confirm)
 }
